@@ -1,6 +1,21 @@
 """Per-property manifest metadata.  bin/mkmanifest renders MANIFEST.json from this."""
 
 CHECKS = {
+    "C20": dict(
+        text="spec/ThreadProxy.tla states what a proxied call does at once (refused for a non-callable attribute, direct call on the owner's "
+             "own loop, dropped without running when the owner's loop is closed, otherwise queued with a plain call returning nothing) "
+             "and what a coroutine caller finally receives; ThreadProxyMC explores owner loop || caller for every method kind from either "
+             "loop with the owner's loop closing at any moment (executed only on the owner, exact relay, dropped never runs). The real "
+             "ThreadsafeProxy runs with REAL threads: every method kind x caller loop {owner, other thread} x owner state {running, "
+             "closed}, and bursts of 10 and 40/100 concurrent mixed calls, repeated; each thread writes its own log (thread identity "
+             "recorded inside the wrapped method) and TLC searches for an interleaving of the two logs that the specification allows "
+             "(Trace_ThreadProxy: executed once, on the owner's thread, only after being invoked; each coroutine caller gets exactly its "
+             "own call's value or exception; plain calls return nothing; dropped and refused calls never run; nothing blocks).",
+        design_ref="3/C20",
+        note="Real OS threads: schedules are sampled, not enumerated; the verdict depends only on per-thread order, never on wall-clock "
+             "order across threads (generous wall-clock limits only detect blocking). A stopped-but-not-closed loop is outside the property.",
+        technique="TLA+ spec + TLC model check; two-log trace validation (TLC searches the interleaving) of real-thread executions of the implementation",
+    ),
     "C17": dict(
         text="spec/EventOps.tla models the event-completed operations as step functions (listener / callback registered before the command "
              "is issued; the matching stack-status event counts from then on, also before the command's own response; refusal, command "
